@@ -32,6 +32,15 @@ PosOk(s, o) ==
   /\ o.disp_ok /\ o.disp_line = l /\ o.disp_col = c /\ Shows(o.disp_text, LineAt(s, p))
   /\ o.disp_marker = c /\ o.disp_aligned
 
+\* the span algebra (recorded for every span; sub-ranges only on short texts)
+AlgebraOk(s, o) ==
+  ("alg" \notin DOMAIN o) \/
+  LET g == o.alg IN
+  /\ g.start = o.a /\ g.end = o.b /\ g.split = <<o.a, o.b>> /\ g.pspan = <<o.a, o.b>>
+  /\ g.str = SubSeq(s, PosOf(s, o.a), PosOf(s, o.b) - 1)
+  /\ \A n \in 1..Len(g.gets) : g.gets[n].r = SubSpan(s, o.a, o.b, g.gets[n].i, g.gets[n].j)
+  /\ \A n \in 1..Len(g.merges) : g.merges[n].r = Merged(o.a, o.b, g.merges[n].c, g.merges[n].d)
+
 SpanObsOk(s, o) ==
   LET p == PosOf(s, o.a)  q == PosOf(s, o.b)
       L == LinesFrom(s, p, q)
@@ -46,6 +55,7 @@ SpanObsOk(s, o) ==
   /\ o.disp_ok /\ o.disp_line = Line(s, p) /\ o.disp_col = Col(s, p) /\ Shows(o.disp_text, LineAt(s, p)) /\ o.disp_aligned
   \* marker under the reported (start) column: stated for spans that stay on one line
   /\ ((o.eline = o.sline /\ o.ecol >= o.scol) => o.disp_marker = Col(s, p))
+  /\ AlgebraOk(s, o)
 
 TextOk(obs) ==
   LET s == obs.s IN
